@@ -150,6 +150,12 @@ class C08(EngineProp):
         for _ in range(40 if tier == 'quick' else 1000):
             out.append({'role': 'client', 'profile': 'lease', 'kind': 'lease', 'kinds': [rng.choice(['stream', 'channel', 'rr']) for _ in range(rng.randint(1, 3))],
                         'acts': [rng.choice(['request_n', 'cancel', 'none']) for _ in range(3)], 'lease_first': rng.random() < 0.3})
+        # the library's own subscriber (CollectorSubscriber behind AwaitableRSocket) as the application: what it asks for and when is
+        # the library's doing, so the frames it causes are judged like everything else the endpoint emits
+        for _ in range(60 if tier == 'quick' else 1500):
+            L = rng.choice([1, 2, 3, 5])
+            out.append({'role': 'client', 'profile': 'collector', 'kind': 'collector', 'L': L, 'k': rng.choice([L, 2 * L, 3 * L, L + 1, 1, 4]),
+                        'end': rng.choice(['flag', 'flag', 'complete', 'error']), 'channel': rng.random() < 0.3})
         # reconnects: a new connection carries only streams it opened itself; what is left over from the previous connection (publishers of
         # its channels, its requesters) must have been shut down and must not emit frames with the old stream ids on the new connection
         for _ in range(60 if tier == 'quick' else 1500):
@@ -172,7 +178,58 @@ class C08(EngineProp):
         if case.get('kind') == 'reconnect':
             from harness import detloop
             return detloop.run(self._reconnect, case)
+        if case.get('kind') == 'collector':
+            from harness import detloop
+            return detloop.run(self._collector, case)
         return super().run_impl(case)
+
+    async def _collector(self, loop, case):
+        import asyncio
+        from harness import clientrun
+        from harness.engine import frame_token, recv_token
+        from rsocket.awaitable.awaitable_rsocket import AwaitableRSocket
+        from rsocket.payload import Payload
+        from rsocket import frame as F
+        R = clientrun.ClientRun(loop, n_transports=1, ka_ms=10_000_000, life_ms=100_000_000)
+        c = R.build()
+        await c.connect()
+        await loop.settle()
+        t = R.transports[0]
+        base = len(t.sent)
+        ars = AwaitableRSocket(c)
+        call = ars.request_channel if case['channel'] else ars.request_stream
+        task = asyncio.ensure_future(call(Payload(b'q'), limit_rate=case['L']))
+        await loop.settle()
+        steps = [['REQUEST', [frame_token(e[2]) for e in t.sent[base:]]]]
+        req = [e[2] for e in t.sent[base:] if isinstance(e[2], (F.RequestStreamFrame, F.RequestChannelFrame))]
+        if req:
+            sid = req[0].stream_id
+            evs = ['n0'] * case['k']
+            if case['end'] == 'flag' and evs:
+                evs[-1] = 'n1'
+            elif case['end'] == 'complete':
+                evs.append('c')
+            elif case['end'] == 'error':
+                evs.append('e')
+            for i, e in enumerate(evs):
+                n0 = len(t.sent)
+                if e[0] == 'n':
+                    spec = {'ty': 'PAYLOAD', 'sid': sid, 'data': [1 + i % 200], 'next': True, 'complete': e == 'n1'}
+                elif e == 'c':
+                    spec = {'ty': 'PAYLOAD', 'sid': sid, 'data': [], 'complete': True}
+                else:
+                    spec = {'ty': 'ERROR', 'sid': sid, 'code': 513}
+                from harness.engine import build_frame
+                t.deliver(build_frame(spec).serialize())
+                await loop.settle()
+                steps.append([recv_token(spec, 'k'), [frame_token(x[2]) for x in t.sent[n0:]]])
+        if not task.done():
+            task.cancel()
+        try:
+            await c.close()
+        except Exception:
+            pass
+        return {'steps': steps, 'final': {'table': [], 'cache': []}, 'script': [], 'extra': None, 'kinds': [], 'sids': []}
 
     async def _reconnect(self, loop, case):
         import asyncio
@@ -341,12 +398,12 @@ class C08(EngineProp):
         return {'steps': [['LEASE-SCENARIO', toks]], 'final': {'table': [], 'cache': []}, 'script': [], 'extra': None, 'kinds': [], 'sids': []}
 
     def model_lines(self, case, obs):
-        if case.get('kind') in ('lease', 'setup-order', 'reconnect'):
+        if case.get('kind') in ('lease', 'setup-order', 'reconnect', 'collector'):
             return []
         return super().model_lines(case, obs)
 
     def compare(self, case, obs, answers):
-        if case.get('kind') in ('lease', 'setup-order', 'reconnect'):
+        if case.get('kind') in ('lease', 'setup-order', 'reconnect', 'collector'):
             return None
         return super().compare(case, obs, answers)
 
@@ -357,6 +414,8 @@ class C08(EngineProp):
             for i in range(len(case['kinds'])):
                 if len(case['kinds']) > 1:
                     yield dict(case, kinds=case['kinds'][:i] + case['kinds'][i + 1:], acts=case['acts'][:i] + case['acts'][i + 1:] + ['none'])
+            return
+        if case.get('kind') == 'collector':
             return
         if case.get('kind') == 'reconnect':
             if case['rounds'] > 1:
@@ -373,7 +432,7 @@ class C08(EngineProp):
         if case.get('kind') == 'setup-order':
             import json
             return json.dumps(case['c16'], sort_keys=True)
-        if case.get('kind') in ('lease', 'reconnect'):
+        if case.get('kind') in ('lease', 'reconnect', 'collector'):
             import json
             return json.dumps(case, sort_keys=True) if any(toks for _, toks in obs['steps']) else None
         return super().nontrivial(case, obs)
@@ -381,6 +440,9 @@ class C08(EngineProp):
     def stats(self, case, obs):
         if case.get('kind') == 'setup-order':
             yield 'kind=setup-order'
+            return
+        if case.get('kind') == 'collector':
+            yield 'kind=collector'
             return
         if case.get('kind') == 'reconnect':
             yield 'kind=reconnect'
